@@ -451,6 +451,9 @@ func (e *Exec) freshArr(elem types.Type, hint string) Value {
 	if es := elemSort(elem); es != nil {
 		return e.c.Fresh(hint, SArr(es))
 	}
+	if isString(elem) {
+		return &SoAV{Str: true, F: []Value{e.c.Fresh(hint+".strs", SArr(SArr(SBV(8)))), e.c.Fresh(hint+".offs", SArr(SBV(64))), e.c.Fresh(hint+".lens", SArr(SBV(64)))}}
+	}
 	switch u := elem.Underlying().(type) {
 	case *types.Struct:
 		so := &SoAV{}
@@ -466,6 +469,9 @@ func (e *Exec) freshArr(elem types.Type, hint string) Value {
 func (e *Exec) zeroArr(elem types.Type) Value {
 	if es := elemSort(elem); es != nil {
 		return e.c.ZeroOf(SArr(es))
+	}
+	if isString(elem) {
+		return &SoAV{Str: true, F: []Value{e.c.ZeroOf(SArr(SArr(SBV(8)))), e.c.ZeroOf(SArr(SBV(64))), e.c.ZeroOf(SArr(SBV(64)))}}
 	}
 	switch u := elem.Underlying().(type) {
 	case *types.Struct:
